@@ -2,16 +2,24 @@
 (* Behaviour generation for C08/C19: Mock's actions with a history variable recording the calls and their
    arguments only (the results are predicted by Trace_Mock when the log recorded from the real MockSupport is
    validated).  A behaviour ends - with the end-of-test step - after D calls, after the first failure, or
-   after checkExpectations.  Expectation sets stay inside the property's domain (Unambiguous). *)
+   after checkExpectations.  Expectation sets stay inside the property's domain (Unambiguous).
+   With Phases the behaviour is a test with a body and a teardown: in the body a check of the test itself may
+   fail (CheckFails); the body ends as above or earlier, then the teardown makes up to TdLen further calls
+   (checkExpectations, expectedCallsLeft, actual calls, clear) - in a test that has failed and in one that has not. *)
 EXTENDS MC_Mock, Json
 CONSTANT D
 VARIABLES h, done
 gvars == <<vars, h, done>>
 Rec(r) == h' = Append(h, r)
 GInit == Init /\ h = <<>> /\ done = FALSE
-Stop == Len(h) >= D \/ failed \/ last = "check"
-GStep ==
-    /\ ~Stop /\ ~done /\ UNCHANGED done
+TdLen == 2
+TdAt == { i \in 1..Len(h) : h[i].op = "teardown" }
+InTd == TdAt # {}
+TdSteps == IF InTd THEN Len(h) - Min(TdAt) ELSE 0
+BodyStop == Len(h) >= D \/ failed \/ last = "check"
+Stop == IF Phases THEN InTd /\ TdSteps >= TdLen ELSE BodyStop
+GBody ==
+    /\ ~BodyStop /\ ~InTd
     /\ \/ \E s \in Scopes, e \in ExpSet : /\ NExp(s) < MaxExp /\ (LateExpect \/ NCalls = 0)
                                           /\ CopiersPresent(s, e) /\ ComparatorsPresent(s, e) /\ Unambiguous(WouldBe(s, e)) /\ Expect(s, e)
                                           /\ Rec([op |-> "expect", s |-> s, e |-> e])
@@ -35,6 +43,17 @@ GStep ==
        \/ AnyOpen /\ Left /\ Rec([op |-> "left"])
        \/ (NCalls > 0 \/ DKeys # {}) /\ Check /\ Rec([op |-> "check"])
        \/ DKeys # {} /\ (\E s \in Scopes : ms[s].data # <<>>) /\ Clear /\ Rec([op |-> "clear"])
+       \/ Phases /\ CheckFails /\ Rec([op |-> "failcheck"])
+\* the teardown of the test: it begins where the body ends - at any point, at the latest where a behaviour without phases would end
+GTeardown ==
+    /\ Phases
+    /\ \/ ~InTd /\ Teardown /\ Rec([op |-> "teardown"])
+       \/ /\ InTd /\ TdSteps < TdLen
+          /\ \/ Check /\ Rec([op |-> "check"])
+             \/ Left /\ Rec([op |-> "left"])
+             \/ \E s \in Scopes, fn \in Fns : Begin(s, fn) /\ Rec([op |-> "begin", s |-> s, fn |-> fn])
+             \/ Clear /\ Rec([op |-> "clear"])
+GStep == ~done /\ UNCHANGED done /\ (GBody \/ GTeardown)
 \* a single deterministic closing step, so that simulation prints each sampled behaviour once
 GEnd == Stop /\ ~done /\ done' = TRUE /\ UNCHANGED <<vars, h>>
 GNext == GStep \/ GEnd
